@@ -2,6 +2,7 @@ package gosym
 
 import (
 	"bytes"
+	"go/token"
 	"encoding/json"
 	"fmt"
 	"go/types"
@@ -692,6 +693,53 @@ func registerEnvStubs(e *Engine) {
 		}
 		return call(fr.i, fr, 0, newFn, nil)
 	}
+	// ---------- sync/atomic: synchronised accesses (not recorded as racy writes) ----------
+	atomicAdd := func(k types.BasicKind) intrinsic {
+		return func(fr *frame, a []value) value {
+			p := a[0].(*value)
+			nv := binop(token.ADD, types.Typ[k], *p, a[1])
+			*p = nv
+			fr.i.ps.dirty = fr.i.ps.dirty || fr.i.ps.gcells[p]
+			fr.i.ps.atomics++
+			return nv
+		}
+	}
+	in["sync/atomic.AddInt64"] = atomicAdd(types.Int64)
+	in["sync/atomic.AddInt32"] = atomicAdd(types.Int32)
+	in["sync/atomic.AddUint64"] = atomicAdd(types.Uint64)
+	in["sync/atomic.AddUint32"] = atomicAdd(types.Uint32)
+	atomicLoad := func(fr *frame, a []value) value { fr.i.ps.atomics++; return *a[0].(*value) }
+	atomicStore := func(fr *frame, a []value) value {
+		p := a[0].(*value)
+		*p = a[1]
+		fr.i.ps.dirty = fr.i.ps.dirty || fr.i.ps.gcells[p]
+		fr.i.ps.atomics++
+		return nil
+	}
+	for _, t := range []string{"Int64", "Int32", "Uint64", "Uint32"} {
+		in["sync/atomic.Load"+t] = atomicLoad
+		in["sync/atomic.Store"+t] = atomicStore
+	}
+	// atomic.Int64 & co: struct{_ noCopy; [_ align64;] v T} -- the value is the last field
+	lastField := func(a []value) *value {
+		st := (*a[0].(*value)).(structure)
+		return &st[len(st)-1]
+	}
+	for _, t := range []struct {
+		n string
+		k types.BasicKind
+	}{{"Int64", types.Int64}, {"Int32", types.Int32}, {"Uint64", types.Uint64}, {"Uint32", types.Uint32}} {
+		t := t
+		in["(*sync/atomic."+t.n+").Add"] = func(fr *frame, a []value) value {
+			return atomicAdd(t.k)(fr, []value{lastField(a), a[1]})
+		}
+		in["(*sync/atomic."+t.n+").Load"] = func(fr *frame, a []value) value { return atomicLoad(fr, []value{lastField(a)}) }
+		in["(*sync/atomic."+t.n+").Store"] = func(fr *frame, a []value) value {
+			return atomicStore(fr, []value{lastField(a), a[1]})
+		}
+	}
+	in["(*sync.Mutex).Lock"] = func(fr *frame, a []value) value { fr.i.ps.locked++; return nil }
+	in["(*sync.Mutex).Unlock"] = func(fr *frame, a []value) value { fr.i.ps.locked--; return nil }
 	in["(*sync.Pool).Put"] = func(fr *frame, a []value) value { return nil }
 	in["strings.Repeat"] = func(fr *frame, a []value) value {
 		return strings.Repeat(mustStr(a[0], "Repeat"), int(asInt64(a[1])))
